@@ -25,6 +25,7 @@ type c09Prog struct {
 	Timeout  bool       `json:"timeout,omitempty"`  // pass a generous fetch timeout (must not change anything)
 	FSort    bool       `json:"fsort,omitempty"`    // pass the ordering as FetchOptions.SortFn
 	Shared   bool       `json:"shared,omitempty"`   // the caller hands the SAME head slice to every load instead of a copy
+	Earlier  int        `json:"earlier,omitempty"`  // 0: the log is published once; k > 0: every replica also published after each k-th operation of the history (and before the final merges)
 }
 
 func genLoadSpec(t *rapid.T) loadSpec {
@@ -50,6 +51,7 @@ func genC09(t *rapid.T) c09Prog {
 	p.Timeout = rapid.IntRange(0, 2).Draw(t, "withTimeout") == 0
 	p.FSort = rapid.Bool().Draw(t, "fsort")
 	p.Shared = rapid.Bool().Draw(t, "sharedInputs")
+	p.Earlier = rapid.SampledFrom([]int{0, 0, 1, 2, 3}).Draw(t, "earlierPublications")
 	n := rapid.IntRange(1, 3).Draw(t, "nloads")
 	for i := 0; i < n; i++ {
 		p.Loads = append(p.Loads, genLoadSpec(t))
@@ -66,7 +68,24 @@ func runC09(tb ev.TB, p c09Prog) ev.Result {
 		case "append", "join", "rebuild":
 			sim.MustOK(tb, info)
 		}
+		// logs are published along the way too: what is loaded at the end is the LAST publication
+		if p.Earlier > 0 && info.Index%p.Earlier == 0 && info.Dst >= 0 && info.Dst < len(w.Reps) {
+			if x := w.Reps[info.Dst]; len(x.Model) > 0 {
+				if _, err := x.Log.ToMultihash(ctx); err != nil {
+					tb.Fatalf("op #%d: ToMultihash failed: %v", info.Index, err)
+				}
+			}
+		}
 	})
+	if p.Earlier > 0 {
+		for _, x := range w.Reps {
+			if len(x.Model) > 0 {
+				if _, err := x.Log.ToMultihash(ctx); err != nil {
+					tb.Fatalf("ToMultihash failed: %v", err)
+				}
+			}
+		}
+	}
 	// pick the requested replica, or the next non-empty one
 	ri := p.Replica % len(w.Reps)
 	if p.Replica%3 != 0 { // 2 of 3 cases: the replica with the most heads
